@@ -927,11 +927,8 @@ func (ex *Exec) ret(st *State, res Value) {
 	g.Stack = g.Stack[:len(g.Stack)-1]
 	if len(g.Stack) == 0 {
 		g.Status = GDone
-		if st.Cur == 0 {
-			st.Done = true
-			ex.finish(st)
-			return
-		}
+		// when the harness entry returns, goroutines that can still run are
+		// run to completion (or until they block) before leaks are judged
 		ex.schedule(st)
 		return
 	}
